@@ -55,7 +55,7 @@ type attemptSpec struct {
 }
 
 type progSpec struct {
-	Entry    string        `json:"entry"` // do | send | get | post | mustget | mustpost
+	Entry    string        `json:"entry"` // do | send | <method of *Request from the generated table> | pkg.<package-level function>
 	TResult  bool          `json:"t_result,omitempty"`
 	TError   bool          `json:"t_error,omitempty"`
 	TCommon  bool          `json:"t_common,omitempty"`
@@ -106,6 +106,16 @@ var checkers = []func(int) int{
 }
 
 func (p *progSpec) verb() bool { return p.Entry != "do" }
+func (p *progSpec) must() bool { return strings.Contains(p.Entry, "Must") }
+func (p *progSpec) pkg() bool  { return strings.HasPrefix(p.Entry, "pkg.") }
+
+// the Coq case of a program with its observation
+func (p *progSpec) coqCase(o *obsT) string {
+	if p.Entry == "do" || p.Entry == "send" {
+		return fmt.Sprintf("ProgCase %s %s", p.coq(o.CtxCutAt), o.coq())
+	}
+	return fmt.Sprintf("EntryCase %s %s %s %s", hk.CoqStr(strings.TrimPrefix(p.Entry, "pkg.")), hk.CoqBool(p.pkg()), p.coq(o.CtxCutAt), o.coq())
+}
 
 // ---------- Coq rendering ----------
 
@@ -238,7 +248,10 @@ func (p *progSpec) coq(ctxCutAt int) string {
 		as = append(as, fmt.Sprintf("(mkAttempt %s %s %s %s %s %s %s %s %s %s %s)", hk.CoqList(ud), bi, hk.CoqList(ws),
 			coqOptZ(a.GetBody), p.coqTout(t), p.coqTout(a.T2), hk.CoqList(cli), hk.CoqList(rq), hk.CoqList(conds), hk.CoqBool(ctxCutAt >= 0 && ai >= ctxCutAt), hk.CoqBool(a.SleepCancel)))
 	}
-	entry := map[string]string{"do": "EDo", "send": "ESend", "get": "ESend", "post": "ESend", "mustget": "EMust", "mustpost": "EMust"}[p.Entry]
+	entry := "ESend" // for a named entry point the checker resolves the kind through the generated table (EntryCase)
+	if p.Entry == "do" {
+		entry = "EDo"
+	}
 	retry := "None"
 	if p.Retry {
 		retry = fmt.Sprintf("(Some (%s, %s))", hk.CoqZ(int64(p.Max)), hk.CoqNat(p.NHooks))
